@@ -27,6 +27,7 @@ type batchCase struct {
 	ExpectStatus int               `json:"expect_status"`
 	Trim         bool              `json:"trim,omitempty"` // suite expectations are trimmed
 	Note         string            `json:"note,omitempty"`
+	RefSteps     int               `json:"ref_steps,omitempty"` // steps the reference interpreter needed (0 = unknown)
 }
 
 // runBatchCase returns (kind, message, model result). kind "" = agrees; "inconclusive:<class>" = outside the model.
@@ -35,7 +36,12 @@ func runBatchCase(c batchCase) (string, string, cmdmodel.Result) {
 	if !tr.Accepted() {
 		return "rejected", "program was not translated for Batch: " + tr.ErrText(), cmdmodel.Result{}
 	}
-	res := cmdmodel.Run(tr.Script, 400000)
+	limit := 400000 + 400*c.RefSteps
+	res := cmdmodel.Run(tr.Script, limit)
+	if res.Inconclusive == "step-limit" && c.RefSteps > 0 {
+		// the reference semantics terminate after RefSteps steps; no statement expands to hundreds of script lines per step
+		return "no-termination", fmt.Sprintf("the script is still running after %d lines under the cmd.exe model; the reference semantics finish after %d steps\n--- output so far\n%.600s\n--- script\n%s", limit, c.RefSteps, res.Stdout, strings.ReplaceAll(tr.Script, "\r\n", "\n")), res
+	}
 	if res.Inconclusive != "" {
 		return "inconclusive:" + res.Inconclusive, res.Inconclusive, res
 	}
@@ -70,7 +76,7 @@ func c05NonTrivial(res cmdmodel.Result) bool {
 
 func TestC05(t *testing.T) {
 	r, e := start(t, "C05",
-		"the generators of C01-C04 under a cmd profile (values within 32 bit, strings over [A-Za-z0-9_.,:+@#] plus single inner blanks, never the words on/off), biased to what the property names: sequences and nestings of loops and conditionals, slices crossing 9 -> 10 elements, several functions; plus the calibration corpus (every literal success program of the repository's shared test files with a literal expected output). The emitted Batch text is executed under an executable cmd.exe model (parse-time % expansion per line as read, run-time ! expansion, blocks read as one command, goto = abandon block + forward-then-wrap label search, call/exit /B frames, numeric-vs-string IF, 32-bit set /A). Oracle: stdout lines and exit status equal the reference interpreter's (calibration corpus: the suite's own expectation). Non-trivial = the run executes a goto out of a parenthesised block and a call, or a numeric IF with a two-digit operand; distinct by source text.",
+		"the generators of C01-C04 under a cmd profile (values within 32 bit, strings over [A-Za-z0-9_.,:+@#] plus single inner blanks, never the words on/off), biased to what the property names: sequences and nestings of loops and conditionals, slices crossing 9 -> 10 elements, several functions; plus the calibration corpus (every literal success program of the repository's shared test files with a literal expected output). The emitted Batch text is executed under an executable cmd.exe model (parse-time % expansion per line as read, run-time ! expansion, blocks read as one command, goto = abandon block + forward-then-wrap label search, call/exit /B frames, numeric-vs-string IF, 32-bit set /A). Oracle: stdout lines and exit status equal the reference interpreter's (calibration corpus: the suite's own expectation); a script still running after 400000 + 400 x (reference steps) lines, where the reference semantics finish, does not terminate. Non-trivial = the run executes a goto out of a parenthesised block and a call, or a numeric IF with a two-digit operand; distinct by source text.",
 		[]string{"fidelity of the cmd.exe model is an assumption, bounded by calibration on the suite's programs whose Windows outcome upstream CI establishes", "runs that reach a construct outside the model (set /p, for over a command or file, program calls, if exist, substring of an undefined variable, numbers beyond 32 bit) are inconclusive, never verdicts", "cases in which an intermediate value leaves the int32 range are discarded (the property fixes 32-bit integers as the domain)"})
 	defer r.Flush()
 	repo := os.Getenv("VERIF_REPO")
@@ -130,7 +136,7 @@ func TestC05(t *testing.T) {
 			continue
 		}
 		files := ts.Sources(p)
-		c := batchCase{Kind: "batch-model-run", Property: "C05", Files: files, Main: p.Main, ExpectStdout: ref.Stdout, ExpectStatus: ref.Status, Note: fmt.Sprintf("sweep-%d", i)}
+		c := batchCase{Kind: "batch-model-run", Property: "C05", Files: files, Main: p.Main, ExpectStdout: ref.Stdout, ExpectStatus: ref.Status, Note: fmt.Sprintf("sweep-%d", i), RefSteps: ref.Steps + 1}
 		kind, msg, res := runBatchCase(c)
 		nsweep++
 		r.Eval()
@@ -173,7 +179,7 @@ func TestC05(t *testing.T) {
 		}
 		files := ts.Sources(p)
 		src := files[p.Main]
-		c := batchCase{Kind: "batch-model-run", Property: "C05", Files: files, Main: p.Main, ExpectStdout: ref.Stdout, ExpectStatus: ref.Status}
+		c := batchCase{Kind: "batch-model-run", Property: "C05", Files: files, Main: p.Main, ExpectStdout: ref.Stdout, ExpectStatus: ref.Status, RefSteps: ref.Steps + 1}
 		kind, msg, res := runBatchCase(c)
 		if strings.HasPrefix(kind, "inconclusive") {
 			r.Inconclusive(strings.SplitN(strings.TrimPrefix(kind, "inconclusive:"), ":", 3)[0] + ":" + strings.Join(strings.SplitN(strings.TrimPrefix(kind, "inconclusive:"), ":", 3)[1:], ":"))
